@@ -16,7 +16,7 @@ import sys
 import time
 
 ROOT = os.path.dirname(os.path.dirname(os.path.abspath(__file__)))
-SEEDED = os.path.join(ROOT, "seeded")
+SEEDED = os.path.join(ROOT, os.environ.get("MUT_DIR", "seeded"))     # MUT_DIR=refactors for the behaviour-preserving rewrites
 REPO = "/repo"
 ALL = ["C%02d" % i for i in range(1, 21)]
 
